@@ -100,7 +100,8 @@ def parse_cpp(txt):
             xs = [float_to_fr(x) for x in t[ip + 1:ib]]
             res[cur].append({'op': k, 'status': status, 'x': xs, 'xf': [float.fromhex(x) for x in t[ip + 1:ib]],
                              'B': [int(b) for b in t[ib + 1:ia]], 'A': t[ia + 1], 'U': t[iu + 1],
-                             'finite': t[ifin + 1] == '1' and all(x is not None for x in xs)})
+                             'finite': t[ifin + 1] == '1' and all(x is not None for x in xs),
+                             'wf': (t[t.index('W') + 1] == '1') if 'W' in t else True})
     return res
 
 
@@ -121,7 +122,7 @@ def parse_drv(txt):
                 res[cur]['m'][k] = {'status': ' '.join(t[2:])}
             else:
                 ip, ib, ia, iu = t.index('P'), t.index('B'), t.index('A'), t.index('U')
-                res[cur]['m'][k] = {'status': 'ok', 'tie': t[3] == 'T1', 'x': [parse_hexq(x) for x in t[ip + 1:ib]],
+                res[cur]['m'][k] = {'status': 'ok', 'tie': t[3] == 'T1', 'wf': t[4] != 'W0', 'x': [parse_hexq(x) for x in t[ip + 1:ib]],
                                     'B': [int(b) for b in t[ib + 1:ia]], 'A': t[ia + 1], 'U': t[iu + 1]}
         elif t[0] == 's':
             res[cur]['s'][int(t[1])] = t[2] == '1'
@@ -338,6 +339,10 @@ def eval_corr(ins, reals, drv, impl, postol=Fr(1, 10 ** 9)):
             continue
         if not r['finite']:
             return 'diff', {'op_index': k, 'what': 'implementation produced non-finite positions'}
+        if not m.get('wf', True):
+            return 'diff', {'op_index': k, 'what': 'the MODEL state returned by this op violates act_inv (active => same block and offsets differ by the gap)'}
+        if not r.get('wf', True):
+            return 'diff', {'op_index': k, 'what': 'the REAL solver state violates active => same block and offsets differ by the gap', 'impl': {'A': r['A'], 'B': r['B']}}
         tie_seen = tie_seen or m['tie']
         vs, cs = cons_at(ins, k)
         sc = problem_scale(vs, cs, m['x'])
